@@ -102,6 +102,49 @@ func deepOracle(o *Out, r *rand.Rand, n int) {
 	}
 }
 
+// deepClipOracle: windows (incl. mate-score bounds) at depths the Lean reference cannot afford; Clip is
+// judged against the harness negamax with the implementation's own score order (C09).
+func deepClipOracle(o *Out, r *rand.Rand, n int) {
+	ab, _ := searchCfg("full-static")
+	le := func(a, b eval.Score) bool { return a == b || a.Less(b) }
+	for i := 0; i < n; i++ {
+		start := deepMateStarts[i%len(deepMateStarts)]
+		b := boardFromLine(start, nil)
+		d := 4
+		if pieceCount(b) <= 4 {
+			d = 5
+		}
+		v := refNegamax(b.Fork(), d, true)
+		res := "ok"
+		var tried []string
+		for k := 0; k < 6 && res == "ok"; k++ {
+			a, bb := parseScore(randomBound(r)), parseScore(randomBound(r))
+			if !a.Less(bb) {
+				a, bb = bb, a
+			}
+			if !a.Less(bb) {
+				continue
+			}
+			tried = append(tried, fmtScore(a)+".."+fmtScore(bb))
+			_, got, _, err := ab.Search(context.Background(), &search.Context{Alpha: a, Beta: bb, TT: search.NoTranspositionTable{}}, b.Fork(), d)
+			ok := err == nil
+			switch {
+			case a.Less(v) && v.Less(bb):
+				ok = ok && got == v
+			case le(v, a):
+				ok = ok && le(v, got) && le(got, a)
+			default:
+				ok = ok && le(bb, got) && le(got, v)
+			}
+			if !ok {
+				res = fmt.Sprintf("MISMATCH window=(%s,%s) value=%s returned=%s", fmtScore(a), fmtScore(bb), fmtScore(v), fmtScore(got))
+			}
+		}
+		o.Emit(fmt.Sprintf("published deep-clip d=%d %s ; %s", d, start, strings.Join(tried, ",")), res)
+		o.Count("deep-clip-oracle")
+	}
+}
+
 // ttSequenceOracle: a deep search, two PV moves played, a shallower search with the same table;
 // every result must equal the table-free exhaustive value (C11 over successive game positions).
 func ttSequenceOracle(o *Out, r *rand.Rand, n int) {
